@@ -195,6 +195,29 @@ inline SymProblem gen_sym(const Desc& d)
         p.spec = VecL::Ones(n);
         p.Q = MatL::Identity(n, n);
     }
+    else if (fam == "bipart")
+    {
+        // bipartite [0 B; B' 0]: a start vector supported on the first part makes every <v, A v> exactly zero
+        int b = (int) d.i("blk", n / 2);
+        p.blk = b;
+        p.A = MatL::Zero(n, n);
+        for (int i = 0; i < b; i++)
+            for (int j = b; j < n; j++)
+                p.A(i, j) = p.A(j, i) = r.sym();
+    }
+    else if (fam == "grid")
+    {
+        // adjacency matrix of a path/grid-like graph: (i, i+1) and (i, i+w) edges; zero diagonal
+        int w = (int) d.i("w", 3);
+        p.A = MatL::Zero(n, n);
+        for (int i = 0; i < n; i++)
+        {
+            if (i + 1 < n && (i + 1) % w != 0)
+                p.A(i, i + 1) = p.A(i + 1, i) = 1;
+            if (i + w < n)
+                p.A(i, i + w) = p.A(i + w, i) = 1;
+        }
+    }
     else if (fam == "lap")
     {
         // 1-D Laplacian (tridiagonal 2,-1): slow convergence at interior/small end
@@ -502,8 +525,8 @@ inline VecL gen_start(const std::string& kind, int n, uint64_t seed, int blk, co
         v.setOnes();
     else if (kind == "blk")
     {
-        for (int i = 0; i < blk && i < n; i++)
-            v[i] = r.sym();
+        for (int i = 0; i < (blk > 0 ? blk : 1) && i < n; i++)
+            v[i] = r.sym() + 1.5L;
     }
     else if (kind == "eig" && Q && Q->cols())
     {
